@@ -4,3 +4,7 @@
    The theorems of Props.v cover both variants; only the correspondence (check_case) reads this flag.
    When the fix is applied to /repo set this to true and drop the "mixed-depth" entry of known_findings/C09.json. *)
 Definition code_is_fixed : bool := false.
+
+(* The "dict" branch of ModelObject.from_dict drops entries whose value is falsy (0.0):
+   true = pinned code, false = after proposed_fixes/C09-summary-zero-value.diff. *)
+Definition dict_drops_zero : bool := true.
